@@ -89,12 +89,13 @@ struct Inner
 {
 	int32_t a = 0;
 	std::string b;
+	bool omitB = false;   // saving only: written by a class version that has no member "b"
 	template <class A>
 	void Serialize(A& ar)
 	{
 		using BitSerializer::KeyValue;
 		ar << KeyValue("a", a);
-		ar << KeyValue("b", b);
+		if (A::IsLoading() || !omitB) ar << KeyValue("b", b);
 	}
 };
 
